@@ -294,8 +294,8 @@ def oracle(case, out, mutated, nondet):
             want = 1 if ms < 0 else ms
             if len(fs) != want:
                 return ("max_solutions", f"max_solutions={ms}: {len(fs)} selections returned, {len(covers)} exist")
-            if st != "FEASIBLE":
-                return ("status", f"enumeration cut by max_solutions reported as {st}")
+            if st != "FEASIBLE" and not (st == "OPTIMAL" and set(fs) == covers):
+                return ("status", f"enumeration cut by max_solutions (covers are missing) reported as {st}")
         if out["objective"] != len(sels):
             return ("objective", f"objective {out['objective']} != number of selections {len(sels)}")
     else:
@@ -469,6 +469,17 @@ def run(ctx: Ctx):
         if not judge(ctx, case, out, False, False):
             ctx.violation("Coq spec_check (DlxSpec.spec_check, proved sound) rejects the implementation's output",
                           {"kind": "case", "case": case, "impl_out": out, "lemma": "Cases/C07/spec_*.v corr"})
+
+    # completeness clause on the implementation's outputs, judged inside coqc by DlxCheck.complete_check (proved sound
+    # for the Spec: accepts only lists that contain every exact cover)
+    failing_full = ctx.coq_check("full", IMPORTS + "\nFrom SV Require Import C07.DlxCheck.", "input * outcome",
+                                 "fun c => complete_check_outcome (fst c) (snd c)", coq_cases)
+    for i in failing_full:
+        case, out = metas[i]
+        if not judge(ctx, case, out, False, False):
+            ctx.violation("Coq complete_check (DlxCheck.complete_check, proved sound) rejects the implementation's find_all output: "
+                          "an exact cover is missing or a selection is not a cover",
+                          {"kind": "case", "case": case, "impl_out": out, "lemma": "Cases/C07/full_*.v corr"})
 
     ctx.notes.append("the functional model's claim that _cover/_uncover compute 'remove the rows sharing a column' is not proved; "
                      "it is tested by the per-run correspondence on the ordered solution list and both counters")
